@@ -106,10 +106,12 @@ def run(ctx):
                         rd = open_reader(ctx, fc, path, gz_path, entry, lazy)
                         sizes = []
                         rows = []
+                        held = []
                         for chunk in rd.read_chunks(min_chunk_size=k):
                             part = tables.rows_of(chunk, fields)
                             sizes.append(len(part))
                             rows.extend(part)
+                            held.append(chunk)
                         nb, nl = rd._reader.n_bytes_read, rd._reader.n_lines_read
                         rd.close()
                     except Exception as e:
@@ -123,6 +125,25 @@ def run(ctx):
                         else:
                             ctx.observe("raised-with-k-below-longest-entry:%s" % et, {"cfg": cfg, "k": k})
                         continue
+                    # "concatenated in order" through the library's own np.concatenate as well (lazy chunks concatenate at buffer level);
+                    # the chunks were read successfully, so a failure here is not excused by a small chunk size
+                    if 2 <= len(held) <= 8 and (k % 3 == 0 or len(held) >= 3):
+                        ctx.count("np_concatenate_of_chunks")
+                        try:
+                            # fresh chunks: nothing parsed (and cached) on the lazy objects before they are concatenated
+                            rd2 = open_reader(ctx, fc, path, gz_path, entry, lazy)
+                            fresh = list(rd2.read_chunks(min_chunk_size=k))
+                            rd2.close()
+                            joined = tables.rows_of(np.concatenate(fresh), fields)
+                        except Exception as e:
+                            if not originates_in_library(e):
+                                raise
+                            et, site = exc_site(e)
+                            joined = "raised %s@%s" % (et, site)
+                        ctx.judged("np.concatenate(chunks)", (fc["data"], cfg, k) if n_rec >= 2 else None)
+                        if joined != rows:
+                            ctx.violation("np.concatenate(chunks)-differs-from-chunk-rows:%s" % ("lazy" if lazy else "eager"), "np.concatenate of the %d chunks (k=%d) differs from the chunks' own rows: %r" % (len(held), k, joined if isinstance(joined, str) else joined[:3]),
+                                          {"cfg": cfg, "k": k, "data": fc["data"].decode("latin1"), "chunk_sizes": sizes, "joined": joined if isinstance(joined, str) else joined[:8], "rows": rows[:8]})
                     ctx.count("reads_completed")
                     nontriv = (fc["data"], cfg, k) if n_rec >= 2 else None
                     if rows != whole:
@@ -226,6 +247,7 @@ def run(ctx):
 
     ctx.floor("reads_completed", ctx.pick(1500, 20000))
     ctx.floor("m3_read_chunk_events", ctx.pick(1500, 20000))
+    ctx.floor("np_concatenate_of_chunks", ctx.pick(200, 5000))
 
 
 def classify(rows, whole, fc):
